@@ -100,7 +100,7 @@ fn gen_subs(rng: &mut Rng) -> Vec<(Option<String>, Option<String>)> {
 
 pub fn run(ctx: &Ctx) -> i32 {
     let mut report = ctx.report("C18", "exploration");
-    report.rule = "read_card against the simulated terminal: systematically every UID length 0..20 x every number of leading zero bytes x zero runs in front of the last 7/8 bytes; randomly UID absent / 0..20 bytes (all zero, zero-prefixed, three zero bytes in front of the last 14 digits, nibble patterns, random), application list (tag 60) absent/empty/1-5 and 14-43 entries with and without application ids, systematically lists of 0..44 entries x 0..15 padding bytes (status informations of every length around the 254/255/256 APDU length switch and beyond), no TLV container at all, 0-5 (and 64 / 255 / 256 / 257 / 300 / 1000) intermediate statuses before the status information or the abort, all 256 abort codes; the terminal's own time-out (abort 6C, or a card at the last moment) arriving read_card_timeout seconds + 0.1/0.9/1.5 s after the request for read_card_timeout in {0,1,15,100,253,254,255}; in a quarter of the cases the link hiccups once during the first presentation (close / garbage / NACK / foreign or unexpected packet / reply followed by a close at a random packet; the re-sent request is answered properly); slow presentations (1-5 intermediate statuses and the card, each arriving read_card_timeout or read_card_timeout + 1 s after the previous packet, i.e. inside the per-packet wait but the whole exchange far beyond it); every card is presented twice in the same session, the second time with the irrelevant fields (track data, card type, ATS, SAK, tag-62 applications) changed. Oracle: reference classification of DESIGN 8/C18 (three-valued where the statement is silent); both presentations must give the same result. Non-trivial = every read; distinct by hash of the reported card data / abort code.".into();
+    report.rule = "read_card against the simulated terminal: systematically every UID length 0..20 x every number of leading zero bytes x zero runs in front of the last 7/8 bytes; UID shapes of real tag families (E0 04 / 04 / 88 04 / 08 heads, 04 E0 / E0 tails, lengths 4 / 7 / 8 / 10, zero-padded or not); randomly UID absent / 0..20 bytes (all zero, zero-prefixed, three zero bytes in front of the last 14 digits, nibble patterns, random), application list (tag 60) absent/empty/1-5 and 14-43 entries with and without application ids, systematically lists of 0..44 entries x 0..15 padding bytes (status informations of every length around the 254/255/256 APDU length switch and beyond), no TLV container at all, 0-5 (and 64 / 255 / 256 / 257 / 300 / 1000) intermediate statuses before the status information or the abort, all 256 abort codes; the terminal's own time-out (abort 6C, or a card at the last moment) arriving read_card_timeout seconds + 0.1/0.9/1.5 s after the request for read_card_timeout in {0,1,15,100,253,254,255}; in a quarter of the cases the link hiccups once during the first presentation (close / garbage / NACK / foreign or unexpected packet / reply followed by a close at a random packet; the re-sent request is answered properly); slow presentations (1-5 intermediate statuses and the card, each arriving read_card_timeout or read_card_timeout + 1 s after the previous packet, i.e. inside the per-packet wait but the whole exchange far beyond it); every card is presented twice in the same session, the second time with the irrelevant fields (track data, card type, ATS, SAK, tag-62 applications) changed. Oracle: reference classification of DESIGN 8/C18 (three-valued where the statement is silent); both presentations must give the same result. Non-trivial = every read; distinct by hash of the reported card data / abort code.".into();
     report.exhaustive = Some(false);
     report.assumptions = vec!["applications listed only under tag 62 are recorded, not judged (one of the repository's own captures is such a card)".into()];
     let schema = Arc::new(refcodec::zvt_schema());
@@ -165,6 +165,42 @@ pub fn run(ctx: &Ctx) -> i32 {
                     let card = CardData { uid: Some("0000000004a1b2c3d4e5f6".into()), subs, ats: if pad > 0 { Some("5a".repeat(pad)) } else { None }, ..CardData::default() };
                     fixed_card_case(r, &mut rng, &schema, card);
                     r.count("size_class_cards", 1);
+                }
+            }
+        }
+        // UID shapes of real tag families (manufacturer / family codes at either end, cascade tag, random-ID marker), in every
+        // usual length, zero-padded to 10 bytes or not
+        {
+            let heads: [&[u8]; 8] = [&[0xe0, 0x04], &[0xe0, 0x07], &[0x04], &[0x02], &[0x05], &[0x88, 0x04], &[0x08], &[0x00, 0x00, 0x00]];
+            let tails: [&[u8]; 6] = [&[0x04, 0xe0], &[0x07, 0xe0], &[0x04], &[0x88], &[0x00], &[0xe0]];
+            let mut k = 0usize;
+            for len in [4usize, 7, 8, 10] {
+                for pad in [false, true] {
+                    for h in heads.iter().map(|h| Some(*h)).chain(std::iter::once(None)) {
+                        for t in tails.iter().map(|t| Some(*t)).chain(std::iter::once(None)) {
+                            k += 1;
+                            if k % threads != shard {
+                                continue;
+                            }
+                            let mut b: Vec<u8> = (0..len).map(|i| 0x11u8.wrapping_mul(i as u8 + 1) | 1).collect();
+                            if let Some(h) = h {
+                                let n = h.len().min(len);
+                                b[..n].copy_from_slice(&h[..n]);
+                            }
+                            if let Some(t) = t {
+                                let n = t.len().min(len);
+                                b[len - n..].copy_from_slice(&t[t.len() - n..]);
+                            }
+                            if pad {
+                                let mut p = vec![0u8; 10usize.saturating_sub(len)];
+                                p.extend(&b);
+                                b = p;
+                            }
+                            let card = CardData { uid: Some(refcodec::hex(&b)), ..CardData::default() };
+                            fixed_card_case(r, &mut rng, &schema, card);
+                            r.count("tag_family_uids", 1);
+                        }
+                    }
                 }
             }
         }
